@@ -20,24 +20,24 @@ import (
 var slowMs = func() int { n, _ := strconv.Atoi(os.Getenv("SYMGO_SLOW")); return n }()
 
 type Solver struct {
-	ctx      string
+	ctx string
 
-	tb       *TB
-	cmd      *exec.Cmd
-	in       *bufio.Writer
-	inRaw    io.WriteCloser
-	out      *bufio.Reader
-	defined  map[int]bool
-	ufsSent  int
-	queries  int
-	nsat     int
-	nunsat   int
-	nunknown int
-	dur      time.Duration
-	log      *bufio.Writer // optional transcript
-	logf     *os.File
+	tb        *TB
+	cmd       *exec.Cmd
+	in        *bufio.Writer
+	inRaw     io.WriteCloser
+	out       *bufio.Reader
+	defined   map[int]bool
+	ufsSent   int
+	queries   int
+	nsat      int
+	nunsat    int
+	nunknown  int
+	dur       time.Duration
+	log       *bufio.Writer // optional transcript
+	logf      *os.File
 	timeoutMs int
-	kind     string
+	kind      string
 }
 
 func newSolver(tb *TB, kind string, timeoutMs int, transcript string) *Solver {
